@@ -3,7 +3,6 @@ use std::hash::{Hasher, Hash};
 use std::convert::TryFrom;
 use std::collections::{BTreeSet};
 use std::iter::FromIterator;
-use std::ops::Add;
 
 use regex::Regex;
 
@@ -97,10 +96,10 @@ impl<'a, T: ColumnProvider> ExpressionExecutionEngine<'a, T> {
 
                 match (&left_value, &right_value) {
                     (Value::Timestamp(left), Value::Interval(right)) => {
-                        return Ok(Value::Timestamp(left.add(right.clone())));
+                        return left.checked_add_signed(right.clone()).map(|value| Value::Timestamp(value)).ok_or(EvaluationError::UndefinedOperation);
                     }
                     (Value::Interval(left), Value::Timestamp(right)) => {
-                        return Ok(Value::Timestamp(right.add(left.clone())));
+                        return right.checked_add_signed(left.clone()).map(|value| Value::Timestamp(value)).ok_or(EvaluationError::UndefinedOperation);
                     }
                     _ => {}
                 }
@@ -141,8 +140,8 @@ impl<'a, T: ColumnProvider> ExpressionExecutionEngine<'a, T> {
                     },
                     |x, y| {
                         match operator {
-                            ArithmeticOperator::Add => { Some(Value::Interval(x + y)) }
-                            ArithmeticOperator::Subtract => { Some(Value::Interval(x - y)) }
+                            ArithmeticOperator::Add => { x.checked_add(&y).map(|value| Value::Interval(value)) }
+                            ArithmeticOperator::Subtract => { x.checked_sub(&y).map(|value| Value::Interval(value)) }
                             ArithmeticOperator::Multiply => { None }
                             ArithmeticOperator::Divide => { None }
                         }
@@ -416,11 +415,20 @@ impl<'a, T: ColumnProvider> ExpressionExecutionEngine<'a, T> {
                     Function::MakeTimestamp if arguments.len() == 8 => {
                         match (&executed_arguments[0], &executed_arguments[1], &executed_arguments[2], &executed_arguments[3], &executed_arguments[4], &executed_arguments[5], &executed_arguments[6]) {
                             (Value::Int(year), Value::Int(month), Value::Int(day), Value::Int(hour), Value::Int(minute), Value::Int(second), Value::Int(microsecond)) => {
-                                Ok(
-                                    create_timestamp(*year as i32, *month as u32, *day as u32, *hour as u32, *minute as u32, *second as u32, *microsecond as u32)
-                                        .map(|timestamp| Value::Timestamp(timestamp))
-                                        .unwrap_or(Value::Null)
-                                )
+                                // Parts that do not fit their field give NULL, like any other invalid date
+                                let create = || {
+                                    create_timestamp(
+                                        i32::try_from(*year).ok()?,
+                                        u32::try_from(*month).ok()?,
+                                        u32::try_from(*day).ok()?,
+                                        u32::try_from(*hour).ok()?,
+                                        u32::try_from(*minute).ok()?,
+                                        u32::try_from(*second).ok()?,
+                                        u32::try_from(*microsecond).ok()?
+                                    )
+                                };
+
+                                Ok(create().map(|timestamp| Value::Timestamp(timestamp)).unwrap_or(Value::Null))
                             }
                             _ => Err(EvaluationError::UndefinedFunction(function.clone(), executed_arguments_types))
                         }
